@@ -1045,7 +1045,7 @@ fn emit_item(idx: usize, cfg: &Config, wit: &str) -> Result<(String, ItemOut)> {
                 .unwrap();
                 writeln!(
                     glue,
-                    "fn bn_adrive_{dk}(t: ::bn_rt::Term) -> ::core::pin::Pin<::std::boxed::Box<dyn ::core::future::Future<Output = String>>> {{ ::std::boxed::Box::pin(async move {{ let fut = {{ let items = t.items(); assert_eq!(items.len(), {}); {callee}({}) }}; ::bn_rt::harness(move || drop(t)); let r = fut.await; let s = ::bn_rt::harness(|| {{ let mut s = String::new(); ::bn_rt::Show::show(&r, &mut s); s }}); drop(r); s }}) }}",
+                    "fn bn_adrive_{dk}(t: ::bn_rt::Term) -> ::core::pin::Pin<::std::boxed::Box<dyn ::core::future::Future<Output = String>>> {{ ::std::boxed::Box::pin(async move {{ let _bn_keep = ::bn_async::KeepGuard; let fut = {{ let items = t.items(); assert_eq!(items.len(), {}); {callee}({}) }}; ::bn_rt::harness(move || drop(t)); let r = fut.await; let s = ::bn_rt::harness(|| {{ let mut s = String::new(); ::bn_rt::Show::show(&r, &mut s); s }}); drop(r); s }}) }}",
                     f.params.len(),
                     args.join(", ")
                 )
